@@ -20,6 +20,24 @@
 //! Second engine: exhaustive sweep of all short strings over {A b $ /} through duke's
 //! `split_inner_class_parent_and_name` / `get_inner_class_{parent,name}` / `from_inner_class` against
 //! the reference split (last `$` of the last `/`-section, both sides non-empty).
+//!
+//! Spaces (every one explored completely; bounds and counts are written to the evidence):
+//!
+//! | space | what varies | judged by |
+//! |---|---|---|
+//! | state graph, 13 universes | sets of present classes x target kind per class and namespace x action sequences to depth 3 (N=4: 2 in quick); at depth 0 also reversed and rotated insertion order | `step`: reference of extension / contraction, everything else untouched, inverse law, every produced name valid |
+//! | … "base", "shared target names", "depth 0..4", "packages", "unsplittable $", "crossing names", "N=4" | chains to depth 4, packages, `$` in packages, empty sides, equal target names, names that are other classes' source names, acted-on index 1..3 | |
+//! | … "siblings and prefixes" (N=2, N=3) | two inner classes of one outer class, equal simple names below different siblings, source names that begin with one another (`A`/`AB`), target names that are equal to / begin with the outer class's name (`Stem`, `Stemmed`); every class with comment, field, method, parameter | |
+//! | … "anonymous and local" | `A$1`, `A$1$B`, `A$1B`, `A$B$1`, target names that are numbers (`OwnSimple`) | |
+//! | … N=4 and siblings N=3 | namespace names that begin with one another and differ only in case (`n`, `nn1`, `nn`, `NN`; N=3: the last three) | |
+//! | helper sweep | every string to length 8/10 over {A b $ / é} and to length 7/8 over {A 1 $ / € 𝄞} (3- and 4-byte characters, digits) | reference split; halves valid names; split ∘ join, join ∘ split |
+//! | helper sweep on code points | every sequence to length 7/8 over {A $ / U+D800 U+1D11E}: names with a lone surrogate (legal in modified UTF-8, not a `&str`) | the same, on code points |
+//! | long names | `a`^k + one character of 1/2/3/4 bytes (last or first), k = 0..140 (300), as source name of outer / inner / packaged depth-2 classes and as name in the chosen namespace; accepting sets, sets with a missing outer class (the refusal quotes the name), outer class without name; N=2 and N=3 | `step` (extend, contract of the result, contract) |
+//! | insertion orders | every permutation of the classes of the chain (depth 0..4, every Simple/Extended assignment), the siblings, the shared-names set, each also with one class removed (refusals) | same result (or refusal) as the judged sorted order |
+//! | out-of-domain probes | first namespace, unknown namespace | no panic |
+//!
+//! A result of the real code that holds a name duke itself rejects (an empty half of a split glued back) is a
+//! difference (`…:invalid-class-name-produced`) and has no successor; it is never a machinery error.
 
 use std::collections::BTreeMap;
 use std::sync::{Arc, Mutex};
@@ -29,6 +47,9 @@ use quill::tree::mappings::Mappings;
 use rayon::prelude::*;
 use stateright::{Checker, Model, Property};
 use vcore::{json, Ctx, Stats, Value};
+
+#[path = "c11/extra.rs"]
+mod extra;
 
 // ---------------------------------------------------------------------------------------------
 // reference, written from the statement
@@ -285,6 +306,20 @@ fn step(ctx: &Ctx, st: &mut Stats, set: &MSet, act: Act, also_reversed: bool) ->
 			ctx.diff(&format!("{opn}:class-invented"), &format!("class {k:?} appeared"), || replay_text(set, act, &shown(&after)));
 		}
 	}
+	// every name of the result is a name duke itself accepts (the real code builds names without validation:
+	// `from_inner_class`, the two halves of the split); a result with such a name cannot be rebuilt, so it has no
+	// successor — but it is a difference, not a problem of the machinery
+	let mut rebuildable = true;
+	for (k, a) in &after.classes {
+		for (j, name) in a.names.iter().enumerate() {
+			if let Some(t) = name {
+				if mapmodel::cls(t).is_err() {
+					rebuildable = false;
+					ctx.diff(&format!("{opn}:invalid-class-name-produced"), &format!("class {k:?}: name in namespace {j} is now {t:?}, which is not a valid object class name (was {:?})", set.classes.get(k).and_then(|b| b.names.get(j))), || replay_text(set, act, &shown(&after)));
+				}
+			}
+		}
+	}
 	let mut changed = 0usize;
 	let mut deepest_changed = 0usize;
 	for (k, b) in &set.classes {
@@ -296,6 +331,7 @@ fn step(ctx: &Ctx, st: &mut Stats, set: &MSet, act: Act, also_reversed: bool) ->
 		}
 		if a.names.len() != n {
 			ctx.diff(&format!("{opn}:row-length"), &format!("class {k:?}: row {:?}", a.names), || replay_text(set, act, &shown(&after)));
+			rebuildable = false;
 			continue;
 		}
 		if a.doc != b.doc {
@@ -303,6 +339,7 @@ fn step(ctx: &Ctx, st: &mut Stats, set: &MSet, act: Act, also_reversed: bool) ->
 		}
 		if a.fields != b.fields || a.methods != b.methods {
 			ctx.diff(&format!("{opn}:member-touched"), &format!("class {k:?}: fields/methods/parameters or their comments changed"), || replay_text(set, act, &shown(&after)));
+			rebuildable = false;
 		}
 		let got = &a.names[ns];
 		if got != &b.names[ns] {
@@ -344,6 +381,9 @@ fn step(ctx: &Ctx, st: &mut Stats, set: &MSet, act: Act, also_reversed: bool) ->
 					if multibyte && g != t {
 						st.outcome("contract:cut-name-with-multibyte-character");
 					}
+					if g != t && g.bytes().all(|b| b.is_ascii_digit()) {
+						st.outcome("contract:cut-to-numeric-name");
+					}
 				},
 				Op::Extend => {
 					if let Some((outer, own)) = ref_split(k) {
@@ -365,6 +405,26 @@ fn step(ctx: &Ctx, st: &mut Stats, set: &MSet, act: Act, also_reversed: bool) ->
 							}
 							if k[..k.rfind('/').map_or(0, |i| i)].contains('$') {
 								st.outcome("extend:rewrote-class-with-dollar-in-source-package");
+							}
+							if let Some(ot) = set.classes.get(outer).and_then(|o| o.names[ns].as_deref()) {
+								if !t.contains('$') && !ot.contains('$') {
+									if t == ot {
+										st.outcome("extend:own-name-equals-name-of-outer");
+									} else if t.starts_with(ot) {
+										st.outcome("extend:own-name-begins-with-name-of-outer");
+									} else if ot.starts_with(t.as_str()) {
+										st.outcome("extend:name-of-outer-begins-with-own-name");
+									}
+								}
+							}
+							if own.bytes().all(|b| b.is_ascii_digit()) {
+								st.outcome("extend:rewrote-class-with-numeric-source-simple-name");
+							}
+							if t.bytes().all(|b| b.is_ascii_digit()) {
+								st.outcome("extend:rewrote-class-with-numeric-name");
+							}
+							if set.classes.keys().any(|o| o != k && ref_split(o).is_some_and(|(oo, _)| oo == outer)) {
+								st.outcome("extend:rewrote-class-that-has-a-sibling");
 							}
 						}
 					} else if (t.contains('$') || k.contains('$')) && g == t {
@@ -426,6 +486,11 @@ fn step(ctx: &Ctx, st: &mut Stats, set: &MSet, act: Act, also_reversed: bool) ->
 		st.outcome(&format!("{opn}:ok-on-set-with-comment"));
 	}
 	// the inverse law
+	if !rebuildable {
+		// already reported; the result cannot be given back to the real code
+		st.outcome(&format!("{opn}:result-not-rebuildable"));
+		return None;
+	}
 	if act.op == Op::Extend && exp.must_err.is_none() && names_simple(set, ns) {
 		st.eval();
 		let back_act = Act { op: Op::Contract, ns: act.ns };
@@ -476,6 +541,14 @@ const KEYS_EDGE: &[(&str, &str)] = &[("A", "Aa"), ("A$", "Ae"), ("$A", "Ea"), ("
 /// class of the other chain (kind `Swap`), or its own source name.
 const KEYS_CROSS: &[(&str, &str)] = &[("A", "Aa"), ("A$B", "Bb"), ("A$B$C", "Cc"), ("X", "Xx"), ("X$B", "Yb"), ("X$B$C", "Yc")];
 
+/// Sibling inner classes (`A$B`, `A$C`), equal simple names below different siblings (`A$B$D`, `A$C$D`), and
+/// source names that are string prefixes of each other without being nested in each other (`A` / `AB`,
+/// `A$B` / `AB$B`): anything carried over from the class visited before, or compared by `starts_with`.
+const KEYS_SIBLINGS: &[(&str, &str)] = &[("A", "Aa"), ("A$B", "Bb"), ("A$C", "Cc"), ("A$B$D", "Dd"), ("A$C$D", "De"), ("AB", "Ab"), ("AB$B", "Bc")];
+/// Anonymous and local classes (`A$1`, `A$1B`), named classes inside them and anonymous classes inside named
+/// inner classes: a simple name that is a number is a simple name.
+const KEYS_ANON: &[(&str, &str)] = &[("A", "Aa"), ("A$1", "N"), ("A$1$B", "Bb"), ("A$1B", "Lb"), ("A$B", "Bc"), ("A$B$1", "M"), ("p/A$1", "Pn")];
+
 /// What a class is called in one non-first namespace.
 #[derive(Clone, Copy, Debug, PartialEq, Eq)]
 enum Kind {
@@ -495,6 +568,13 @@ enum Kind {
 	TrailDollar,
 	/// the source name of the corresponding class of the other chain (`A…` <-> `X…`)
 	Swap,
+	/// `Zz<j>` — the same name for every class of the universe
+	Stem,
+	/// `Zz<j><simple>`: begins with the `Stem` name (an inner class called `FooBuilder` in an outer class called
+	/// `Foo`, or the other way round): a test by `starts_with` instead of by the `$` goes wrong here only
+	Stemmed,
+	/// the innermost part of the source name (`1` for `A$1`, `B` for `A$1$B`; the whole name if top-level)
+	OwnSimple,
 }
 
 const KINDS_BASE: &[Kind] = &[Kind::Absent, Kind::Simple, Kind::Extended];
@@ -510,6 +590,10 @@ struct Alphabet {
 	templates: Vec<MClass>,
 	rejected: Vec<String>,
 }
+
+/// Namespace names that begin with one another, in both directions as seen from a later namespace (`nn` comes
+/// after `nn1`, which begins with it, and after `n`, with which it begins), and two that differ only in case
+const NS_PREFIXED: [&str; 4] = ["n", "nn1", "nn", "NN"];
 
 fn target(base: &str, key: &str, j: usize, kind: Kind) -> Option<String> {
 	let (pkg, simple) = match base.rfind('/') {
@@ -536,6 +620,9 @@ fn target(base: &str, key: &str, j: usize, kind: Kind) -> Option<String> {
 			};
 			Some(format!("{other}{}", &key[1..]))
 		},
+		Kind::Stem => Some(format!("{pkg}Zz{j}")),
+		Kind::Stemmed => Some(format!("{pkg}Zz{j}{simple}")),
+		Kind::OwnSimple => Some(ref_split(key).map_or(key, |(_, own)| own).to_owned()),
 	}
 }
 
@@ -625,6 +712,38 @@ impl Alphabet {
 			c
 		}).collect();
 		Alphabet { label, ns, kinds: kinds.to_vec(), doc: doc.map(|d| d.to_owned()), keys, templates, rejected }
+	}
+
+	/// every class carries a comment, a field and a method with a parameter (all with comments) that mention
+	/// the class's own name
+	fn decorated(mut self) -> Alphabet {
+		let n = self.n();
+		let row = |src: Option<&str>, base: &str| -> Vec<Option<String>> {
+			let mut r = vec![src.map(|s| s.to_owned())];
+			for j in 1..n {
+				r.push(Some(format!("{base}{j}")));
+			}
+			r
+		};
+		for ((k, _), c) in self.keys.iter().zip(self.templates.iter_mut()) {
+			if c.doc.is_some() || !c.fields.is_empty() || !c.methods.is_empty() {
+				continue;
+			}
+			c.doc = Some(format!("comment of {k}"));
+			c.fields.insert(("f".into(), format!("L{k};")), MField { names: row(Some("f"), "f$"), doc: Some(format!("field of {k}")) });
+			let mut m = MMethod { names: row(Some("m"), "m$"), doc: Some(format!("method of {k}")), params: BTreeMap::new() };
+			m.params.insert(0, MParam { names: row(None, "p$"), doc: Some(format!("parameter in {k}")) });
+			c.methods.insert(("m".into(), format!("(L{k};)V")), m);
+		}
+		self
+	}
+
+	fn with_namespaces(mut self, ns: &[&str]) -> Alphabet {
+		if ns.len() != self.n() {
+			vcore::machinery_fail("with_namespaces: wrong number of namespace names");
+		}
+		self.ns = ns.iter().map(|s| s.to_string()).collect();
+		self
 	}
 
 	fn n(&self) -> usize {
@@ -823,6 +942,9 @@ fn run_graph(ctx: &'static Ctx, universes: &[Universe]) -> GraphTotals {
 
 /// `é` takes two bytes: an index counted in characters and used in bytes (or the other way round) goes wrong
 const HELPER_ALPHABET: &[char] = &['A', 'b', '$', '/', 'é'];
+/// characters of three and four bytes (the latter two UTF-16 units: an index counted in UTF-16 units, as Java
+/// does, is right for everything else), and a digit (the simple name of an anonymous class)
+const HELPER_ALPHABET_WIDE: &[char] = &['A', '1', '$', '/', '€', '𝄞'];
 
 fn check_helpers_on(ctx: &Ctx, st: &mut Stats, s: &str) {
 	st.eval();
@@ -846,6 +968,12 @@ fn check_helpers_on(ctx: &Ctx, st: &mut Stats, s: &str) {
 			return;
 		},
 	};
+	if let Some((p, i)) = &split {
+		// both halves are typed as object class names (built without validation)
+		if mapmodel::cls(p).is_err() || mapmodel::cls(i).is_err() {
+			ctx.diff("helpers:split-returns-invalid-name", &format!("split_inner_class_parent_and_name({s:?}) = {split:?}: a half is not a valid object class name"), || format!("name={s}"));
+		}
+	}
 	if split != want {
 		ctx.diff("helpers:split-differs", &format!("split_inner_class_parent_and_name({s:?}) = {split:?}, the reference split gives {want:?}"), || format!("name={s}"));
 	}
@@ -861,13 +989,16 @@ fn check_helpers_on(ctx: &Ctx, st: &mut Stats, s: &str) {
 			if s.len() != s.chars().count() {
 				st.outcome("helpers:split-some-with-multibyte-character");
 			}
+			if s.chars().any(|c| c.len_utf8() == 4) {
+				st.outcome("helpers:split-some-with-4-byte-character");
+			}
 			st.distinct.add(s);
 			st.sample("helpers", || json!({"kind": "split", "name": s, "split": split}));
 		},
 		_ => st.outcome("helpers:split-none"),
 	}
 	// split ∘ join: joining this name (as outer) with a simple inner name and splitting again gives both back
-	for inner in ["I", "b1", "é€"] {
+	for inner in ["I", "b1", "é€", "1", "𝄞"] {
 		st.eval();
 		let r = vcore::guard(|| {
 			let i = mapmodel::cls(inner).unwrap();
@@ -888,10 +1019,10 @@ fn check_helpers_on(ctx: &Ctx, st: &mut Stats, s: &str) {
 	}
 }
 
-fn run_helpers(ctx: &Ctx, max_len: usize, used: &[String]) -> Stats {
-	let total = vcore::enumerate::strings_count(HELPER_ALPHABET.len(), max_len);
+fn run_helpers(ctx: &Ctx, alphabet: &[char], max_len: usize, used: &[String]) -> Stats {
+	let total = vcore::enumerate::strings_count(alphabet.len(), max_len);
 	let mut st = (0..total).into_par_iter().fold(Stats::new, |mut st, idx| {
-		let s: String = vcore::enumerate::string_nth(HELPER_ALPHABET, max_len, idx).into_iter().collect();
+		let s: String = vcore::enumerate::string_nth(alphabet, max_len, idx).into_iter().collect();
 		check_helpers_on(ctx, &mut st, &s);
 		st
 	}).reduce(Stats::new, Stats::merge);
@@ -973,7 +1104,16 @@ fn main() {
 	let edge = Universe::all_subsets(Alphabet::with_keys("unsplittable $ N=2", 2, KEYS_EDGE.to_vec(), &[Absent, Simple, Extended, TrailDollar], None), 256, max_depth);
 	let cross = Universe::all_subsets(Alphabet::with_keys("crossing names N=2", 2, KEYS_CROSS.to_vec(), &[Absent, Simple, Identity, Swap], DOC), 256, max_depth);
 	let four = Universe::all_subsets(Alphabet::with_keys("N=4", 4, vec![("A", "Aa"), ("A$B", "Bb"), ("A$B$C", "Cc"), ("p/A", "q/Pa"), ("p/A$B", "Pb")], &[Simple, Deep], DOC), 64, ctx.tier.pick(2, 3));
-	let mut universes = vec![base2, base3, shared, deep2, deep3, packages, packages3, edge, cross, four];
+	let four = Universe { alpha: four.alpha.with_namespaces(&NS_PREFIXED), ..four };
+	// quick: the kinds that make names equal to / beginning with one another; thorough adds the already extended ones
+	let siblings = Universe::all_subsets(Alphabet::with_keys("siblings and prefixes N=2", 2, KEYS_SIBLINGS.to_vec(), ctx.tier.pick(&[Simple, Stem, Stemmed][..], &[Simple, Extended, Stem, Stemmed, Absent][..]), DOC).decorated(), 256, max_depth);
+	let siblings3 = Universe::subsets_up_to(Alphabet::with_keys("siblings and prefixes N=3", 3, KEYS_SIBLINGS.to_vec(), ctx.tier.pick(&[Simple, Stemmed][..], &[Simple, Stem, Stemmed][..]), None).decorated().with_namespaces(&NS_PREFIXED[1..]), ctx.tier.pick(3, 4), 128, max_depth);
+	let anon = {
+		// quick: without the packaged anonymous class
+		let keys = &KEYS_ANON[..ctx.tier.pick(KEYS_ANON.len() - 1, KEYS_ANON.len())];
+		Universe::all_subsets(Alphabet::with_keys("anonymous and local N=2", 2, keys.to_vec(), &[Absent, Simple, Extended, OwnSimple], None).decorated(), 256, max_depth)
+	};
+	let mut universes = vec![base2, base3, shared, deep2, deep3, packages, packages3, edge, cross, four, siblings, siblings3, anon];
 	if let Some(o) = &only {
 		universes.retain(|u| u.alpha.label.contains(o.as_str()));
 	}
@@ -999,8 +1139,14 @@ fn main() {
 	used.sort();
 	used.dedup();
 	let helper_len = ctx.tier.pick(8, 10);
-	let helpers = run_helpers(ctx, helper_len, &used);
+	let helper_len_wide = ctx.tier.pick(7, 8);
+	let helper_len_cps = ctx.tier.pick(7, 8);
+	let helpers = run_helpers(ctx, HELPER_ALPHABET, helper_len, &used).merge(run_helpers(ctx, HELPER_ALPHABET_WIDE, helper_len_wide, &[])).merge(extra::run_helpers_cps(ctx, helper_len_cps));
 	if timing { eprintln!("helpers done at {:.1}s", ctx.elapsed_s()); }
+	let (long, long_bounds) = extra::run_long(ctx, ctx.tier.pick(140, 300));
+	if timing { eprintln!("long names done at {:.1}s", ctx.elapsed_s()); }
+	let (perms, perm_bounds) = extra::run_perms(ctx, thorough);
+	if timing { eprintln!("permutations done at {:.1}s", ctx.elapsed_s()); }
 	let mut probes = Stats::new();
 	for u in &universes {
 		if ["base N=2", "depth 0..4 N=3", "N=4"].contains(&u.alpha.label) {
@@ -1045,6 +1191,26 @@ fn main() {
 		ctx.floor("helper sweep: names that split", 100, helpers.get("helpers:split-some"));
 		ctx.floor("helper sweep: names with a multi-byte character that split", 100, helpers.get("helpers:split-some-with-multibyte-character"));
 		ctx.floor("helper sweep: names that do not split", 100, helpers.get("helpers:split-none"));
+		ctx.floor("helper sweep: names with a 4-byte character that split", 100, helpers.get("helpers:split-some-with-4-byte-character"));
+		ctx.floor("helper sweep on code points: names with a lone surrogate that split", 100, helpers.get("helpers-cp:split-some-with-lone-surrogate"));
+		ctx.floor("helper sweep on code points: names with a lone surrogate that do not split", 100, helpers.get("helpers-cp:split-none-with-lone-surrogate"));
+		ctx.floor("extensions of a class whose name begins with the name of its outer class", 100, s.get("extend:own-name-begins-with-name-of-outer"));
+		ctx.floor("extensions of a class whose outer class's name begins with its own name", 100, s.get("extend:name-of-outer-begins-with-own-name"));
+		ctx.floor("extensions of a class called like its outer class", 100, s.get("extend:own-name-equals-name-of-outer"));
+		ctx.floor("extensions of a class whose source simple name is a number", 100, s.get("extend:rewrote-class-with-numeric-source-simple-name"));
+		ctx.floor("extensions of a class whose name is a number", 100, s.get("extend:rewrote-class-with-numeric-name"));
+		ctx.floor("contractions that left a number", 100, s.get("contract:cut-to-numeric-name"));
+		ctx.floor("extensions of a class that has a sibling inner class", 1000, s.get("extend:rewrote-class-that-has-a-sibling"));
+		for w in 1..=4 {
+			ctx.floor(&format!("long names, {w}-byte character: extensions refused for a missing outer class"), 200, long.get(&format!("long/{w}-byte:refused-missing-outer")));
+			ctx.floor(&format!("long names, {w}-byte character: extensions refused or passed with an outer class without name"), 100, long.get(&format!("long/{w}-byte:refused-outer-without-name")) );
+			ctx.floor(&format!("long names, {w}-byte character: extensions that changed a name"), 500, long.get(&format!("long/{w}-byte:extend-changed")));
+			ctx.floor(&format!("long names, {w}-byte character: contractions that changed a name"), 500, long.get(&format!("long/{w}-byte:contract-changed")));
+			ctx.floor(&format!("long names, {w}-byte character: inverse law exercised"), 200, long.get(&format!("long/{w}-byte:law-exercised")));
+		}
+		ctx.floor("insertion orders: extensions with the same result as in sorted order", 10000, perms.get("order:extend:same-result-permuted"));
+		ctx.floor("insertion orders: contractions with the same result as in sorted order", 10000, perms.get("order:contract:same-result-permuted"));
+		ctx.floor("insertion orders: extensions refused in every order", 1000, perms.get("order:extend:refused-in-every-order"));
 	}
 	for u in &universes {
 		for r in &u.alpha.rejected {
@@ -1061,6 +1227,13 @@ fn main() {
 	let mut outcomes = s.outcomes.clone();
 	outcomes.extend(helpers.outcomes.clone());
 	outcomes.extend(probes.outcomes.clone());
+	for (k, v) in long.outcomes.iter().chain(perms.outcomes.iter()) {
+		if k.starts_with("long/") || k.starts_with("order:") {
+			outcomes.insert(k.clone(), *v);
+		} else {
+			*outcomes.entry(format!("direct-sweeps/{k}")).or_insert(0) += *v;
+		}
+	}
 	let by_label = |l: &str| universes.iter().find(|u| u.alpha.label == l);
 	let old_style = |l: &str, idx: &[usize]| by_label(l).map(|u| json!({"namespaces": u.alpha.ns, "present_class_sets": u.sets_rule, "present_class_set_count": u.masks.len(), "acted_on_namespace_indices": idx}));
 	let coverage = json!({
@@ -1070,7 +1243,7 @@ fn main() {
 		"successor_states": g.successors,
 		"traces_validated_against_impl": transitions,
 		"max_depth": g.max_depth.saturating_sub(1),
-		"evaluations": s.evaluations + helpers.evaluations + probes.evaluations,
+		"evaluations": s.evaluations + helpers.evaluations + probes.evaluations + long.evaluations + perms.evaluations,
 		"distinct_nontrivial": s.distinct.len(),
 		"rule": "a state is (depth, mapping set); a transition rebuilds a real quill Mappings from the state, calls the real extend_inner_class_names / contract_inner_class_names for one non-first namespace and projects the result, which is judged against the reference of the statement; transitions = (state, action) pairs executed (failed calls have no successor). evaluations additionally count the runs with reversed and rotated insertion order at depth 0, the contract run of the inverse law, the helper sweep and the out-of-domain probes. distinct_nontrivial = distinct (action, result) pairs where the action changed at least one class name",
 		"exhaustive": true,
@@ -1099,9 +1272,25 @@ fn main() {
 			"insertion_orders_at_depth_0": format!("sorted, reversed, sorted rotated by 1..{MAX_ROTATIONS}"),
 			"helper_alphabet": HELPER_ALPHABET.iter().map(|c| c.to_string()).collect::<Vec<_>>(),
 			"helper_max_len": helper_len,
+			"helper_alphabet_wide": HELPER_ALPHABET_WIDE.iter().map(|c| c.to_string()).collect::<Vec<_>>(),
+			"helper_max_len_wide": helper_len_wide,
+			"helper_alphabet_code_points": extra::CP_ALPHABET.iter().map(|c| format!("U+{c:04X}")).collect::<Vec<_>>(),
+			"helper_max_len_code_points": helper_len_cps,
+			"long_names": {
+				"name": "k times `a` and one character of 1/2/3/4 UTF-8 bytes, last or first",
+				"k": format!("0..={}", long_bounds.max_k),
+				"characters": extra::WIDTH_CHARS.iter().map(|c| c.to_string()).collect::<Vec<_>>(),
+				"namespaces": "N=2 acting on 1, N=3 acting on 2",
+				"shapes": long.outcomes.keys().filter_map(|k| k.strip_prefix("long/shape:")).collect::<Vec<_>>(),
+				"per_shape": "extend, contract of the extended set, contract of the set",
+				"cases": long_bounds.cases,
+			},
+			"insertion_order_permutations": perm_bounds.sets,
 			"names_of_the_mapping_alphabet_checked_through_helpers": used.len(),
 		},
 		"helper_sweep": {"evaluations": helpers.evaluations, "distinct_splitting_names": helpers.distinct.len()},
+		"long_name_sweep": {"evaluations": long.evaluations},
+		"insertion_order_sweep": {"evaluations": perms.evaluations},
 		"out_of_domain_probes": {"evaluations": probes.evaluations, "outcomes": probes.outcomes},
 	});
 	ctx.finish(coverage, &[
@@ -1117,6 +1306,12 @@ fn main() {
 
 fn replay(ctx: &'static Ctx, path: &std::path::Path) -> ! {
 	let body = vcore::replay_body(path);
+	if let Some(cps) = body.strip_prefix("codepoints=") {
+		let cps = extra::parse_cps(cps.lines().next().unwrap_or("")).unwrap_or_else(|| vcore::machinery_fail("bad code points in replay"));
+		let mut st = Stats::new();
+		extra::check_helpers_on_cps(ctx, &mut st, &cps);
+		ctx.finish(json!({"states": 1, "transitions": 1, "traces_validated_against_impl": 1, "samples": ["replay"]}), &[]);
+	}
 	if let Some(name) = body.strip_prefix("name=") {
 		let mut st = Stats::new();
 		check_helpers_on(ctx, &mut st, name.lines().next().unwrap_or(""));
